@@ -1,5 +1,6 @@
 """Which harness modules decide which property."""
 PROPERTIES = {
+    "C20": ["harness.C20_schema_validation"],
     "C14": ["harness.C14_merge"],
     "C15": ["harness.C15_input", "harness.C16_numeric"],
     "C16": ["harness.C16_leaf", "harness.C16_numeric"],
